@@ -1602,18 +1602,38 @@ func (c *FnCtx) execReturn(st *State, in *ssa.Return) {
 		if cl.At != "" && cl.AtOrd > 0 && c.occurrence(in.Pos()) != fmt.Sprintf(" #%d", cl.AtOrd) {
 			continue
 		}
-		if cl.At != "" {
-			if c.ensuresAtSeen == nil {
-				c.ensuresAtSeen = map[string]bool{}
-			}
-			c.ensuresAtSeen[cl.At] = true
-		}
 		penv := env
 		if cl.At != "" {
 			// clauses tied to one return statement may mention the locals in scope there
 			e2 := *env
 			e2.cells = true
 			penv = &e2
+		}
+		if cl.At != "" && cl.AtOrd == 0 {
+			// an anchor without ordinal names every return with that text; where a local the clause
+			// mentions is not declared yet on the way to this return, the clause does not apply here
+			// (it must apply at one of them: the anchor counts as seen only then)
+			if !func() (ok bool) {
+				defer func() {
+					if r := recover(); r != nil {
+						if se, is := r.(specErr); is && strings.Contains(se.msg, "unknown identifier") {
+							ok = false
+							return
+						}
+						panic(r)
+					}
+				}()
+				penv.evalBool(cl.E)
+				return true
+			}() {
+				continue
+			}
+		}
+		if cl.At != "" {
+			if c.ensuresAtSeen == nil {
+				c.ensuresAtSeen = map[string]bool{}
+			}
+			c.ensuresAtSeen[cl.At] = true
 		}
 		if len(c.fc.Counters) > 0 {
 			// call-count clauses often fold to true on a path; they are still obligations of that path
